@@ -380,6 +380,101 @@ func genTable(cfg Config, emit0 func(string, bool, []string)) {
 			emit("table index-wide-channels", true, g.ops)
 			continue
 		}
+		if c%40 == 17 {
+			// the table's LAST pending initializer is marked done and committed (the commit publishes a
+			// new table entry); afterwards a transaction over the OTHER table stays open across a commit to
+			// this table, and a write to this table through that transaction is refused
+			g.add("wtxn m")
+			g.add("reginit m init0")
+			if r.IntN(2) == 0 {
+				g.add("reginit m init1")
+			}
+			two := strings.Contains(g.ops[len(g.ops)-1], "init1")
+			g.add("ins m %s 1 0 - - 0 1", hx([]byte("k0")))
+			g.add("commit")
+			g.nsnap++
+			g.add("wtxn m")
+			g.add("initdone 0")
+			if two {
+				g.add("initdone 1")
+			}
+			g.add("commit")
+			g.nsnap++
+			g.add("inited - m")
+			for k := 0; k < 2; k++ {
+				g.add("wtxn a")
+				g.add("side m %s %d 0 - - 0 %d", hx([]byte{'k', byte('1' + k)}), 2+k, 2+k)
+				g.add("get w m id %s", hx([]byte{'k', byte('1' + k)}))
+				g.add("ins a %s 1 0 - - 0 %d", hx([]byte{'a', byte('0' + k)}), 1+k)
+				g.add("ins m %s 9 0 - - 0 9", hx([]byte("kx"))) // not held: refused
+				g.add("rev w m")
+				if k == 0 || r.IntN(2) == 0 {
+					g.add("commit")
+					g.nsnap++
+				} else {
+					g.add("abort")
+				}
+				g.add("get - m id %s", hx([]byte{'k', byte('1' + k)}))
+				g.add("all - m")
+				g.add("rev - m")
+				g.add("inited - m")
+			}
+			emit("table init-done-then-disjoint-commit", true, g.ops)
+			continue
+		}
+		if c%40 == 15 {
+			// a compare-and-swap / compare-and-delete / no-op delete aimed at a key whose deletion a lagging
+			// iterator has not been handed yet (the reconciler's late status write does exactly this) is
+			// refused and its transaction COMMITTED: the deletion must still reach the iterator
+			g.add("wtxn m")
+			g.add("changes m")
+			g.add("changes m")
+			for i := 0; i < 3; i++ {
+				g.add("ins m %s %d 0 - - 0 %d", hx([]byte{'k', byte('0' + i)}), i, i+1)
+			}
+			g.add("commit")
+			g.nsnap++
+			g.add("rtxn")
+			g.nsnap++
+			g.add("next 0 s%d -1", g.nsnap-1)
+			g.add("next 1 s%d -1", g.nsnap-1)
+			g.add("wtxn m")
+			g.add("del m %s", hx([]byte("k0")))
+			g.add("commit")
+			g.nsnap++
+			g.add("rtxn")
+			g.nsnap++
+			g.add("next 1 s%d -1", g.nsnap-1) // the other iterator is up to date: only iterator 0 lags
+			g.add("glen - m")
+			g.add("wtxn m")
+			switch r.IntN(3) {
+			case 0:
+				g.add("cas m big %s 9 0 - - 0 9", hx([]byte("k0")))
+			case 1:
+				g.add("cas m cur %s 9 0 - - 0 9", hx([]byte("k0")))
+				g.add("cad m big %s", hx([]byte("k0")))
+			default:
+				g.add("cad m big %s", hx([]byte("k0")))
+				g.add("del m %s", hx([]byte("k0")))
+				g.add("cas m big %s 9 0 - - 0 9", hx([]byte("k0")))
+			}
+			if r.IntN(2) == 0 {
+				g.add("ins m %s 5 0 - - 0 5", hx([]byte("k5")))
+			}
+			g.add("commit")
+			g.nsnap++
+			g.add("glen - m")
+			g.add("gc")
+			g.add("glen - m")
+			g.add("rtxn")
+			g.nsnap++
+			g.add("next 0 s%d -1", g.nsnap-1)
+			g.add("next 1 s%d -1", g.nsnap-1)
+			g.add("gcidle")
+			g.add("glen - m")
+			emit("table refused-write-on-retained-deletion", true, g.ops)
+			continue
+		}
 		if c%40 == 35 {
 			// the last change iterator is closed while deletions it was never handed are still retained
 			// and BEFORE the collector runs; a deleted key is inserted again, a new iterator created, the
@@ -1613,6 +1708,7 @@ type keptSeq struct {
 }
 
 type tableExec struct {
+	lostReported  bool
 	kept          []keptSeq // query results handed out earlier and iterated later (lazily evaluated sequences)
 	aborts        int       // write transactions aborted so far in this case
 	db            *statedb.DB
@@ -2117,8 +2213,51 @@ func (it *tIter) lastRevSeen() uint64 { return it.createdAt }
 
 // Do wraps do with the snapshot-stability oracle of C01: a query on a retained
 // snapshot must answer exactly what it answered the first time it was asked.
+// committedVisible (C05): with no write transaction open, a fresh snapshot shows exactly the objects
+// written by the transactions committed so far — no committed write lost or replaced by an older
+// state, nothing that no committed transaction wrote
+func (e *tableExec) committedVisible(o *Out, after string) {
+	if e.db == nil || e.wtxn != nil || e.committed == nil {
+		return
+	}
+	defer func() { recover() }()
+	rtx := e.db.ReadTxn()
+	for _, tn := range []string{"m", "a"} {
+		tbl := e.m
+		if tn == "a" {
+			tbl = e.a
+		}
+		rt := e.committed.t(tn)
+		got := map[string]uint64{}
+		for obj, rev := range tbl.All(rtx) {
+			got[obj.ID] = rev
+		}
+		var lost, ghost []string
+		for id := range rt.objs {
+			if _, ok := got[id]; !ok {
+				lost = append(lost, hx([]byte(id)))
+			}
+		}
+		for id := range got {
+			if _, ok := rt.objs[id]; !ok {
+				ghost = append(ghost, hx([]byte(id)))
+			}
+		}
+		if len(lost)+len(ghost) > 0 && !e.lostReported {
+			e.lostReported = true
+			sort.Strings(lost)
+			sort.Strings(ghost)
+			o.Fail("C05", "committed-write-lost", map[string]string{"table": tn, "after": after},
+				fmt.Sprintf("after %s a fresh snapshot of table %s misses committed objects %v and holds objects %v that no committed transaction wrote", after, tn, lost, ghost))
+		}
+	}
+}
+
 func (e *tableExec) Do(o *Out, f []string) string {
 	obs := e.do(o, f)
+	if len(f) > 0 && (f[0] == "commit" || f[0] == "abort" || f[0] == "side") {
+		e.committedVisible(o, f[0])
+	}
 	if len(f) > 2 && strings.HasPrefix(f[1], "s") && f[0] != "next" {
 		obs := obs
 		if i := strings.Index(obs, " # "); i >= 0 {
@@ -2795,6 +2934,14 @@ func (e *tableExec) OnPanic(o *Out, f []string, msg string) {
 	feat := map[string]string{"op": f[0], "after_an_aborted_txn": strconv.FormatBool(e.aborts > 0)}
 	detail := fmt.Sprintf("%s panicked: %s", strings.Join(f, " "), msg)
 	o.Fail(prop, kind, feat, detail)
+	if f[0] == "commit" {
+		// a Commit that panics has published nothing or something: either way the committed writes of
+		// OTHER transactions must still be there
+		w := e.wtxn
+		e.wtxn = nil
+		e.committedVisible(o, "a commit that panicked")
+		e.wtxn = w
+	}
 	if e.aborts > 0 {
 		// an aborted transaction must leave the behaviour of later transactions untouched
 		o.Fail("C02", "later-operation-panics-after-an-abort", feat, detail)
